@@ -189,6 +189,17 @@ Theorem C02_sanitize_safe : forall name : list N,
 Proof. exact sanitize_safe_chars. Qed.
 Print Assumptions C02_sanitize_safe.
 
+(* The save-name clause at the place the daemon hands names out: for ANY suggested_file_name found in a loaded
+   descriptor (other / older clients do not sanitise at publish time), ManagedStream.suggested_file_name
+   (= sanitize of the stripped name) and the name save_file() picks are non-empty and free of code points below 32,
+   of slash, backslash and of < > : double-quote | ? star. *)
+Theorem C02_save_name_safe : forall sugg n : list N,
+  suggested_save_name sugg = Some n \/ save_file_name sugg = Some n ->
+  n <> [] /\ forall c, In c n ->
+    (32 <= c /\ c <> 47 /\ c <> 92 /\ c <> 60 /\ c <> 62 /\ c <> 58 /\ c <> 34 /\ c <> 124 /\ c <> 63 /\ c <> 42)%N.
+Proof. exact save_names_safe_chars. Qed.
+Print Assumptions C02_save_name_safe.
+
 (* ---- non-vacuity: concrete instances (H = identity padded is not needed: structural facts only) ---- *)
 Example C02_ex_split : split 4 (bytes_of_Ns [1; 2; 3; 4; 5; 6; 7]%N) =
   [bytes_of_Ns [1; 2; 3]%N; bytes_of_Ns [4; 5; 6]%N; bytes_of_Ns [7]%N].
@@ -219,4 +230,38 @@ Proof. vm_compute. reflexivity. Qed.
 Example C02_ex_refuses_tampered_key : validate H0 (tamper_key (to_sdj (s_desc ex_stream))) = Err EStreamHash.
 Proof. vm_compute. reflexivity. Qed.
 Example C02_ex_suggested_name : d_sugg (s_desc ex_stream) = bytes_of_Ns [97; 98; 46; 116; 120; 116]%N.
+Proof. vm_compute. reflexivity. Qed.
+
+(* The streaming read path: one decrypted-blob LRU of any capacity shared by all streams of a blob manager, keyed on
+   (stream, position).  For every world of streams, every read sequence and every cache state that only holds true
+   entries, each cached read returns exactly what the uncached read of that stream's own blob returns ... *)
+Theorem C02_cache_transparent : forall D cap (w : list (desc * list bytes)) ops,
+  run_reads D cap w [] ops = map (fun op => read_blob D w (fst op) (snd op)) ops.
+Proof. exact cache_transparent_empty. Qed.
+Print Assumptions C02_cache_transparent.
+
+(* ... which for a published stream is piece i of its own file. *)
+Theorem C02_read_blob_created : forall H E D (maxb : nat) name key ivf f (w : list (desc * list bytes)) sid i p,
+  (forall k iv p, D k iv (E k iv p) = Some p) ->
+  nth_error w sid = Some (s_desc (build_stream H E maxb name key ivf f), s_cts (build_stream H E maxb name key ivf f)) ->
+  nth_error (split maxb f) i = Some p ->
+  read_blob D w sid i = Some p.
+Proof. exact read_blob_created. Qed.
+Print Assumptions C02_read_blob_created.
+
+(* non-vacuity / necessity of the key: with the cache keyed on the position only, the second stream's blob 0 comes
+   back as the first stream's plaintext *)
+Example C02_ex_bynum_cache_wrong :
+  snd (cached_read_bynum D0 ex_world (fst (cached_read_bynum D0 ex_world [] 0 0)) 1 0) = Some (firstn 3 ex_file).
+Proof. vm_compute. reflexivity. Qed.
+Example C02_ex_own_blob : read_blob D0 ex_world 1 0 = Some ex_file2.
+Proof. vm_compute. reflexivity. Qed.
+Example C02_ex_cached_own_blob : run_reads D0 32 ex_world [] [(0, 0); (1, 0); (0, 0); (1, 0)]%nat =
+  [Some (firstn 3 ex_file); Some ex_file2; Some (firstn 3 ex_file); Some ex_file2].
+Proof. vm_compute. reflexivity. Qed.
+
+Example C02_ex_foreign_name : suggested_save_name [32; 46; 46; 47; 46; 46; 47; 120; 10; 113; 46; 109; 112; 52; 10]%N =
+  Some [46; 46; 46; 46; 120; 113; 46; 109; 112; 52]%N.
+Proof. vm_compute. reflexivity. Qed.
+Example C02_ex_blank_name : suggested_save_name [32; 133; 9]%N = None.
 Proof. vm_compute. reflexivity. Qed.
